@@ -1,5 +1,7 @@
 import NbioVerif.Properties.C12
 #print axioms Ws.c12_roundtrip
+#print axioms Ws.c12_invalid_text_not_delivered
+#print axioms Ws.c12_trunc_tail
 #print axioms Ws.c12_mask_fast
 #print axioms Ws.c12_mask_involutive
 #print axioms Ws.c12_header
